@@ -644,6 +644,11 @@ async def _timer(
         )
         patch = cause.patch = patches.Patch(remaining_patch, body=body)
 
+        # A timer that has failed for good (a permanent error; the retries or timeout are exhausted)
+        # stops forever: no more ticks. Only the successful (or error-ignoring) timers tick further.
+        if state.done and state.counts.failure:
+            break
+
         # For temporary errors, override the schedule by the one provided by errors themselves.
         # It can be either a delay from TemporaryError, or a backoff for an arbitrary exception.
         if not state.done:
